@@ -57,7 +57,19 @@ static std::string digest(const THDM& m) {
    return s.str();
 }
 
-struct Pt { bool mssm; gen::MssmPoint mp; thdm::Mass_basis tb; bool running; bool complex_ckm; };
+// smf: factors on the default SM inputs. MSSM: alpha(MZ), alpha(0), g3, MZ, MW, mt, mb(mb), mtau, mmu ; THDM: alpha_em(MZ), alpha_em(0), alpha_s(MZ), mz, mw, mt, mb, mtau, mmu, mh(SM), mc, ms
+constexpr int NSM = 12;
+struct Pt { bool mssm; gen::MssmPoint mp; thdm::Mass_basis tb; bool running; bool complex_ckm; double smf[NSM] = {1, 1, 1, 1, 1, 1, 1, 1, 1, 1, 1, 1}; };
+static const char* const SMN_M[NSM] = {"alpha_MZ", "alpha_thompson", "g3", "MZ", "MW", "mt", "mb_mb", "mtau", "mmu", "-", "-", "-"};
+static const char* const SMN_T[NSM] = {"alpha_em_mz", "alpha_em_0", "alpha_s_mz", "mz", "mw", "mt", "mb", "mtau", "mmu", "mh_SM", "mc", "ms"};
+static void apply_sm(MSSMNoFV_onshell& m, const Pt& p) {
+   const double* f = p.smf; bool any = false; for (int i = 0; i < NSM; ++i) any = any || f[i] != 1.0;
+   if (!any) return;   // default inputs untouched: bit-identical to the plain default model
+   const MSSMNoFV_onshell d;
+   m.set_alpha_MZ(f[0] * (d.get_EL() * d.get_EL() / (4 * M_PI))); m.set_alpha_thompson(f[1] * (d.get_EL0() * d.get_EL0() / (4 * M_PI))); m.set_g3(f[2] * d.get_g3());
+   m.get_physical().MVZ = f[3] * d.get_physical().MVZ; m.get_physical().MVWm = f[4] * d.get_physical().MVWm; m.get_physical().MFt = f[5] * d.get_physical().MFt;
+   m.get_physical().MFb = f[6] * d.get_physical().MFb; m.get_physical().MFtau = f[7] * d.get_physical().MFtau; m.get_physical().MFm = f[8] * d.get_physical().MFm;
+}
 static Pt gen_point(vh::Rng& r) {
    Pt p; p.mssm = r.chance(0.5);
    p.mp = gen::rand_mssm(r, 200, 2000, 3, 50); for (int g = 0; g < 3; ++g) { p.mp.mq[g] = r.LU(800, 4000); p.mp.mU[g] = r.LU(800, 4000); p.mp.mD[g] = r.LU(800, 4000); p.mp.Ae[g] = r.U(-1, 1) * 300; p.mp.Au[g] = r.U(-1, 1) * 800; p.mp.Ad[g] = r.U(-1, 1) * 800; }
@@ -68,13 +80,20 @@ static Pt gen_point(vh::Rng& r) {
    p.running = r.chance(0.5); p.complex_ckm = r.chance(0.5);
    return p;
 }
-static SM sm_of(const Pt& p) { SM sm; if (p.complex_ckm) sm.set_ckm_from_wolfenstein(0.2257, 0.814, 0.135, 0.349); return sm; }
+static SM sm_of(const Pt& p) {
+   SM sm; if (p.complex_ckm) sm.set_ckm_from_wolfenstein(0.2257, 0.814, 0.135, 0.349);
+   const double* f = p.smf;
+   sm.set_alpha_em_mz(f[0] * sm.get_alpha_em_mz()); sm.set_alpha_em_0(f[1] * sm.get_alpha_em_0()); sm.set_alpha_s_mz(f[2] * sm.get_alpha_s_mz()); sm.set_mz(f[3] * sm.get_mz()); sm.set_mw(f[4] * sm.get_mw());
+   sm.set_mu(2, f[5] * sm.get_mu(2)); sm.set_md(2, f[6] * sm.get_md(2)); sm.set_ml(2, f[7] * sm.get_ml(2)); sm.set_ml(1, f[8] * sm.get_ml(1)); sm.set_mh(f[9] * sm.get_mh()); sm.set_mu(1, f[10] * sm.get_mu(1)); sm.set_md(1, f[11] * sm.get_md(1));
+   return sm;
+}
+static MSSMNoFV_onshell make_mssm_pt(const Pt& p) { MSSMNoFV_onshell m; apply_sm(m, p); gen::fill_mssm(m, p.mp); m.calculate_masses(); return m; }
 // all results of a point, model constructed here (construction is part of what may run concurrently)
 static bool eval_point(const Pt& p, Vec& res, bool via_conversion) {
    res.clear();
    try {
       if (p.mssm) {
-         MSSMNoFV_onshell m = gen::make_mssm(p.mp);
+         MSSMNoFV_onshell m = make_mssm_pt(p);
          if (m.get_problems().have_problem() || m.get_problems().have_warning()) return false;
          if (via_conversion) { MSSMNoFV_onshell b(m); b.set_Mu(p.mp.mu * 1.01); b.set_MassB(p.mp.m1 * 0.99); b.convert_to_onshell(1e-8, 1000); if (b.get_problems().have_warning() || b.get_problems().have_problem()) return false; for (auto& f : MFS) res.push_back(f.f(b)); }
          for (auto& f : MFS) res.push_back(f.f(m));
@@ -133,6 +152,41 @@ static void single_case(vh::Rng& r) {
    bool same = true; for (int k = 0; k < K; ++k) same = same && ok1[k] == ok2[k] && same_vec(first[k], second[k]);
    out->cell("history|evaluation-order-independence", same ? 0 : 1);
    if (!same) out->fail("C19:history-dependence", "results of a point depend on what was evaluated before it in the same process", c);
+   // neighbour histories: P' differs from P in exactly one input (an SM input or a model parameter). P' evaluated right after P must give the
+   // same bits as P' evaluated right after an unrelated point Q - what a result remembered under an incomplete key would break.
+   for (int rep = 0; rep < 4; ++rep) {
+      Pt P = gen_point(r); for (int i = 0; i < NSM; ++i) P.smf[i] = r.chance(0.5) ? 1.0 : r.U(0.99, 1.01);
+      Pt N = P; std::string what;
+      const double fac = r.chance(0.5) ? 1 + r.sign() * r.LU(1e-6, 2e-2) : 1 + r.sign() * r.U(0.05, 0.3);
+      if (r.chance(0.6)) { const int j = r.range(P.mssm ? 9 : NSM); N.smf[j] = P.smf[j] * fac; what = std::string("SM:") + (P.mssm ? SMN_M[j] : SMN_T[j]); }
+      else if (P.mssm) {
+         double* q[] = {&N.mp.tb, &N.mp.mu, &N.mp.m1, &N.mp.m2, &N.mp.m3, &N.mp.ma, &N.mp.Q, &N.mp.ml[1], &N.mp.me[1], &N.mp.ml[2], &N.mp.me[2], &N.mp.mq[2], &N.mp.mU[2], &N.mp.mD[2], &N.mp.Ae[1], &N.mp.Ae[2], &N.mp.Au[2], &N.mp.Ad[2], &N.mp.mq[0], &N.mp.ml[0]};
+         static const char* const qn[] = {"tb", "mu", "m1", "m2", "m3", "ma", "Q", "ml2", "me2", "ml3", "me3", "mq3", "mU3", "mD3", "Ae2", "Ae3", "Au3", "Ad3", "mq1", "ml1"};
+         const int j = r.range(20); *q[j] *= fac; what = std::string("MSSM:") + qn[j];
+      } else {
+         double* q[] = {&N.tb.mh, &N.tb.mH, &N.tb.mA, &N.tb.mHp, &N.tb.tan_beta, &N.tb.m122, &N.tb.lambda_6, &N.tb.lambda_7};
+         static const char* const qn[] = {"mh", "mH", "mA", "mHp", "tan_beta", "m122", "lambda_6", "lambda_7"};
+         const int j = r.range(9);
+         if (j == 8) { N.running = !P.running; what = "THDM:running_couplings"; } else { *q[j] *= fac; if (j >= 6 && *q[j] == 0) *q[j] = 0.01; what = std::string("THDM:") + qn[j]; }
+      }
+      const Pt Q = gen_point(r);
+      Vec dq, dp, afterQ, afterP, pAfterQ, pAfterN, dn;
+      eval_point(Q, dq, false); const bool o1 = eval_point(N, afterQ, false);
+      eval_point(P, dp, false); const bool o2 = eval_point(N, afterP, false);
+      eval_point(Q, dq, false); const bool o3 = eval_point(P, pAfterQ, false);
+      eval_point(N, dn, false); const bool o4 = eval_point(P, pAfterN, false);
+      if (!(o1 || o2 || o3 || o4)) { out->count("neighbour history: point not evaluable"); continue; }
+      const bool sameN = o1 == o2 && same_vec(afterQ, afterP), sameP = o3 == o4 && same_vec(pAfterQ, pAfterN);
+      const bool differs = !same_vec(afterQ, pAfterQ);   // the varied input matters for at least one result
+      const std::string cell = "neighbour-history|" + what + (differs ? "" : "|(no result depends on it)");
+      out->cell(cell, sameN && sameP ? 0 : 1);
+      if (!(sameN && sameP)) {
+         J w = P.mssm ? P.mp.json() : gen::json(P.tb); w.str("model", P.mssm ? "MSSM" : "THDM").str("varied_input", what).d("factor", fac); w.arr("sm_factors", P.smf, P.smf + NSM);
+         size_t k = 0; const Vec& a = sameN ? pAfterQ : afterQ; const Vec& b = sameN ? pAfterN : afterP; while (k < a.size() && k < b.size() && vh::same_bits(a[k], b[k])) ++k;
+         w.i("first_differing_result", static_cast<long>(k)); if (k < a.size() && k < b.size()) w.d("after_unrelated_point", a[k]).d("after_neighbour", b[k]);
+         out->fail("C19:history-dependence:neighbour:" + what, "a point evaluated right after a point differing only in " + what + " gives other results than after an unrelated point", w);
+      }
+   }
    out->sample(c, 1);
 }
 
